@@ -4,6 +4,8 @@
 package expand
 
 import (
+	"github.com/pkg/errors"
+
 	"context"
 	"net/http"
 
@@ -115,7 +117,9 @@ func (h *handler) getExpand(w http.ResponseWriter, r *http.Request, _ httprouter
 func (h *handler) Expand(ctx context.Context, req *rts.ExpandRequest) (*rts.ExpandResponse, error) {
 	var subSet *ketoapi.SubjectSet
 
-	switch sub := req.Subject.Ref.(type) {
+	switch sub := req.GetSubject().GetRef().(type) {
+	case nil:
+		return nil, errors.WithStack(ketoapi.ErrNilSubject)
 	case *rts.Subject_Id:
 		return &rts.ExpandResponse{
 			Tree: &rts.SubjectTree{
